@@ -50,7 +50,7 @@ CLAIMED = {
    ref="DESIGN.md §4 C03", note=TRUST+" The call budget 1024*len+65536 stands for termination; nothing is required of Skip on a seekable reader that was cut short.",
    tech="deterministic simulation of the caller-supplied reader (seeded delivery schedules and fault injection), reference encoder as oracle"),
  "C16": dict(engine="plugin-world", cat="fault_enumeration",
-   text="Systematic enumeration of every protocol step x reply action x truncation offset for one plugin (whole and 1-byte writes), plus seeded search over 0-3 concurrent plugins with independent fault scripts, interleavings, chunkings, options and frame fast-path thresholds; oracles over the recorded per-plugin history (gate, goodbye exactly once, cleanup/reaping, exit status iff failure and naming the plugin, liveness in steps). The floor is exhaustive for one plugin; everything beyond is sampled.",
+   text="Systematic enumeration of every protocol step x reply action x truncation offset for one plugin (whole and 1-byte writes), plus seeded search over 0-3 concurrent plugins with independent fault scripts, interleavings, chunkings, options and frame fast-path thresholds; oracles over the recorded per-plugin history (gate, goodbye exactly once, cleanup/reaping, exit status iff failure and naming the plugin, frames intact: every plugin sees the same request, equal to an in-process reference run's, liveness in steps); a run kind in which the harness is the scripted host talking raw frames to the real plugin.Main. The floor is exhaustive for one plugin; everything beyond is sampled. Thorough additionally cross-checks the simulator's stubs against real os/exec, OS pipes and processes (3000 scenarios) and repeats runs in a -race build with a baton the detector cannot see.",
    ref="DESIGN.md §4 C16", note=TRUST+" Plugins always terminate; pipes are reliable; API_VERSION and method names come from plugin/api.thrift; no disk faults.",
    tech="deterministic simulation with scripted fault injection (seeded scheduler, simulated pipes/processes, history oracles)"),
  "C17": dict(engine="plugin-world", cat="exploration",
